@@ -265,6 +265,14 @@ def gen_case(rnd, profile="mixed", size="small"):
         p = case["sym_prec"].get(s, 2)
         case["initial"][s] = "-" + dec(F(1, 2) if s == "BTC" else 100, p)
         case["profile"] = "neginit"
+        if case["lend"] is not None and len(case["bars"]) % 3 == 0:
+            # ... in a symbol the lending strategy has no conditions for (nothing can be borrowed in it, that is all)
+            case["lend"]["default"] = None
+            case["lend"]["conds"].pop(s, None)
+            # (a change of conditions planned for a symbol that has none any more is dropped)
+            case["script"] = {k: [a for a in acts if not (a[0] == "recond" and a[1] not in case["lend"]["conds"])]
+                              for k, acts in case["script"].items()}
+            case["script"] = {k: v for k, v in case["script"].items() if v}
         return case
     if profile == "cancelrepay":
         return gen_cancel_repay(rnd)
@@ -278,6 +286,12 @@ def gen_case(rnd, profile="mixed", size="small"):
         return gen_margin_edge(rnd)
     if profile == "adaptive":
         return gen_adaptive(rnd)
+    if profile == "twovenues":
+        return gen_two_venues(rnd)
+    if profile == "finegrid":
+        return gen_fine_grid(rnd)
+    if profile == "inverse":
+        return gen_inverse_pairs(rnd)
     if profile == "boundary":
         return gen_boundary(rnd)
     if profile == "dust":
@@ -591,6 +605,81 @@ def gen_adaptive(rnd):
             "script": script, "on_fill": on_fill, "order_events_first": rnd.random() < 0.6,
             "subscribe_first": rnd.random() < 0.3, "profile": "adaptive", "ample": False, "handler_pairs": None,
             "merged_source": False, "extra_subs": []}
+
+
+def gen_two_venues(rnd):
+    """Two feeds for one pair (two venues, or overlapping files whose rows differ): some periods have two bars with the
+    same begin and the same delivery time, the first one narrow, the second one with the period's real range.  Ample
+    funds, unlimited liquidity: whichever of the two reaches a limit / stop has to fill the order."""
+    case = gen_case(rnd, "ample", "small")
+    if len(case["pairs"]) != 1 and not all(b[0] == 0 for b in case["bars"]):
+        # keep it to histories whose bars can be doubled without reordering other pairs' bars of the same instant
+        pass
+    bars, script, remap = [], {}, {}
+    prev_close = {}
+    for i, b in enumerate(case["bars"]):
+        pc = prev_close.get(b[0])
+        if pc is not None and (i * 7 + len(case["bars"])) % 3 != 0:
+            # the other venue's bar of the same period comes first: flat at the previous close, it reaches nothing new
+            bars.append([b[0], b[1], pc, pc, pc, pc, b[6]])
+        remap[i] = len(bars)
+        bars.append(b)
+        prev_close[b[0]] = b[5]
+    for k, acts in case["script"].items():
+        script[str(remap[int(k)])] = acts
+    case["bars"], case["script"], case["profile"] = bars, script, "twovenues"
+    return case
+
+
+def gen_fine_grid(rnd):
+    """Prices with more decimals than anybody rounds to: a quote precision of 18 (or 13), limit / stop prices on 12
+    decimals and bars whose extremes miss them by a few units of the 13th: the bar does not reach the order."""
+    qp = rnd.choice([18, 18, 13])
+    bp = rnd.choice([0, 2])
+    base = F(rnd.randint(100000, 999999), 10 ** 12)                  # e.g. 0.000000123456
+    off = F(rnd.choice([4, 3, 49]), 10 ** 14)                         # far below half a unit of the 12th decimal
+    op = rnd.choice(["buy", "sell"])
+    kind = rnd.choice(["limit", "limit", "stop"])
+    amount = F(rnd.randint(1, 9) * 10 ** 5)
+    ref = base * 3 if (op == "buy") == (kind == "limit") else base / 3
+    # bar 2 stays on the far side of the price by [off]: a buy limit / sell stop below the low, a sell limit / buy stop above the high
+    if (op == "buy") == (kind == "limit"):
+        lo = base + off
+        o2, h2, l2, c2 = lo * 2, lo * 3, lo, lo * 2
+    else:
+        hi = base - off
+        o2, h2, l2, c2 = hi / 2, hi, hi / 3, hi / 2
+    q = lambda x: dec(F(int(x * 10 ** qp), 10 ** qp), qp)         # noqa
+    bars = [[0, 60, q(ref), q(ref), q(ref), q(ref), "1000000000"], [0, 120, q(o2), q(h2), q(l2), q(c2), "1000000000"],
+            [0, 180, q(c2), q(c2), q(c2), q(c2), "1000000000"]]
+    order = ["create", kind, op, 0, dec(amount, bp), dec(base, qp) if kind == "limit" else None,
+             dec(base, qp) if kind == "stop" else None, False, False]
+    return {"syms": ["SHIB", "ETH"], "pairs": [["SHIB", "ETH"]], "sym_prec": {"SHIB": bp, "ETH": qp}, "pair_info": {},
+            "default_pair": None, "fee": None, "liq": None, "lend": None,
+            "initial": {"SHIB": dec(10 ** 9, bp), "ETH": dec(10 ** 6, qp)}, "bars": bars,
+            "script": {"0": [order], "2": [["list", None]]}, "subscribe_first": False, "profile": "finegrid", "ample": True}
+
+
+def gen_inverse_pairs(rnd):
+    """Both orientations of one market are fed (BTC/USD and USD/BTC, forex style), at prices that are not exact inverses
+    of each other; loans whose interest is charged in the other symbol need a conversion between the two."""
+    n = rnd.randint(4, 7)
+    p = rnd.choice([20000, 25000, 40000])
+    bars = []
+    for k in range(n):
+        t = 60 * (k + 1)
+        bars.append([0, t, dec(p, 2), dec(p, 2), dec(p, 2), dec(p, 2), "1000"])
+        inv = F(1, p - 500)                                           # the inverse feed is a little off
+        bars.append([1, t, dec(inv, 8), dec(inv, 8), dec(inv, 8), dec(inv, 8), "1000"])
+    conds = {"BTC": ["USD", rnd.choice(["10", "5"]), 1024, "0", "0.2"], "USD": ["BTC", "10", 2048, "0", "0.2"]}
+    script = {"0": [["loan", "BTC", "1.00000000"]], "3": [["loan", "USD", "1000.00"]],
+              str(2 * n - 3): [["repay", 0], ["repay", 1]],
+              "5": [["create", "market", "sell", 0, "0.50000000", None, None, False, True]]}
+    return {"syms": ["BTC", "USD"], "pairs": [["BTC", "USD"], ["USD", "BTC"]], "sym_prec": {"BTC": 8, "USD": 2},
+            "pair_info": {}, "default_pair": None, "fee": None, "liq": None,
+            "lend": {"quote": rnd.choice(["USD", "BTC"]), "default": None, "conds": conds},
+            "initial": {"BTC": "2.00000000", "USD": "500000.00"}, "bars": bars, "script": script,
+            "subscribe_first": False, "profile": "inverse", "ample": False}
 
 
 def gen_margin_edge(rnd):
